@@ -1,12 +1,13 @@
 """C18 — trash-put acts on the named entry itself and never follows a final symlink."""
 from ..putfamily import replay_family, run_family
 
-CFG = {"oracles": ("C18", "C01"), "violations": ("C18",), "profile": "links", "states": False}
+CFG = {"oracles": ("C18", "C01"), "violations": ("C18", "C18-link-not-trashed"), "profile": "links", "states": False}
 LEVEL_NOTE = ("theorems: string layer (normpath never leaves a trailing slash, the last component survives), kernel "
               "resolution does not follow a final symlink, the core moves the link node and frames its target; the "
               "restore half (same link comes back) is checked by C02's pipelines")
 RULE = ("seeded random put worlds biased to symlink arguments: link to file / dir / nothing / absolute target / another "
-        "link, 0-3 trailing slashes, reached through a symlinked parent, link and target on different volumes; oracle: "
+        "link / the top directory of another volume, 0-3 trailing slashes, reached through a symlinked parent, link and target on "
+        "different volumes; oracle: a link is trashed whenever C07.expected names a usable trash directory, "
         "payload is the same link, target subtree untouched, recorded Path is the link's location with only the parent "
         "resolved (relative to $topdir in volume trash dirs)")
 
